@@ -8,7 +8,7 @@ open CJ.RelayClock
 def relayLoopStmts : List LStmt := [
   .read,
   .other,
-  .unknown,
+  .writeIfData,
   .breakIfReadErr,
   .arm true .stall,
   .retIfErr true,
